@@ -63,7 +63,9 @@ def run(tier, scratch, t0, replay=None):
     quick = tier == "quick"
     batches = D.build_batches(scratch, [v for v in VERSIONS if v in K.available_interps()], tier, "C13",
                               n_stdlib=6 if quick else 150, n_gen=16 if quick else 300, batch=30, with_corpus=False,
-                              gen_snippets=3 if quick else None)
+                              gen_snippets=3 if quick else None,
+                              must_templates=["t_shared_frozenset", "t_shared_big_tuple", "t_strings", "t_ints", "t_py2_long", "t_floats",
+                                              "t_complex", "t_bytes", "t_containers", "t_closure"])
 
     def do_batch(b):
         v = b["v"]
@@ -71,7 +73,7 @@ def run(tier, scratch, t0, replay=None):
         tf, err = K.run_truth(v, "compile", {"items": b["items"], "sections": [], "mode": "compile"}, wd, b["tag"])
         if tf is None:
             return b, None, "compile: %s" % err
-        items = [{"pyc": it["pyc"], "new": it["pyc"][:-4] + ".new.pyc", "gen": os.path.basename(it["src"]).startswith("g")}
+        items = [{"pyc": it["pyc"], "new": it["pyc"][:-4] + ".new.pyc", "gen": os.path.basename(it["src"])[0] in "gm"}
                  for it in b["items"] if os.path.exists(it["pyc"])]
         outs = {}
         hosts = [K.MAIN_HOST] + ([v] if v in K.available_hosts() and v != K.MAIN_HOST else [])
